@@ -24,6 +24,10 @@ def padZeros (B L len : Nat) : Nat := (B + (B - L) - (len + 1) % B) % B
 def pad (B L : Nat) (enc : Nat → Bytes) (msg : Bytes) : Bytes :=
   msg ++ [0x80#8] ++ List.replicate (padZeros B L msg.length) 0#8 ++ enc (8 * msg.length)
 
+/-- hexadecimal form of a digest: per byte the two digits of its value, high nibble first -/
+def hex (digits : String) (bs : Bytes) : String :=
+  String.ofList (bs.flatMap fun b => [digits.toList.getD (b.toNat / 16) '?', digits.toList.getD (b.toNat % 16) '?'])
+
 /-! ## MD5 (RFC 1321) -/
 namespace MD5
 abbrev Word := BitVec 32
